@@ -12,1141 +12,900 @@ Definition show_fres (r : fres) : string :=
   end.
 Definition check (rs : list rune) : string := digest (show_fres (format_res rs)).
 Definition full (rs : list rune) : string := show_fres (format_res rs).
-Eval vm_compute in ("<<<M1557>>>" ++ check (runes_of_ascii "
-
-  // top
-  options  // c0
-	{ 	 // c1
-	FixedStringPadFromLeft=	// c3a
-  	// c3b
-true
-    // c4
-	;
-        // c5
-  FixedStringPadChar// c6
-  	=  // c7
-    '0'
-    // c8
-    	;
-	    // c9
-
-}	// c10
-
-	packet	// c11
-		Leg 	 // c12
-  	{ 
-    // c13
-repeat // c14
-  InSym93
-// c15
-{ 
-      // c16
-    zchar[
-        // c17
-      3	// c18
-
-	]
-// c19
-    Acct
-
-// c20
-    	, 
-      // c21
-
-  string  // c22
-	  Side2  // c23a
-		// c23b
-  , // c24
-	i32
-	Flags
-	,
-	// c27
-  f32  // c28
-      Note // c29a
-
-	// c29b
-      , 	 // c30a
-    // c30b
-i32
-// c31
-	msgKind	// c32a
-// c32b
-  	,
-
-} // c34
-    	, 
-// c35
-		f64  // c36a
-    // c36b
-Note
-    // c37
-
-,	// c38
-
-	uint16 
-  // c39
-    	Px  // c40
-  ,	// c41a
-	// c41b
-  } 
-      // c42
-  packet
-	// c43
-		Quote	// c44a
-
-// c44b
-
-	{	// c45a
-    // c45b
-  zchar[  // c46
-	  2]  // c48a
-	// c48b
-OrderId
-	// c49
-		,
-
-    } // c51
-
-  packet
-
-Ack	// c53
-	{	// c54a
-  	// c54b
-  repeat	// c55a
-    // c55b
-  string	// c56a
-// c56b
-		lastPx
-	,
-    // c58
-      zchar[  // c59a
-	  // c59b
-  4// c60
-] 
-    // c61
-  price , uint32
-
-OrderId // c65a
-// c65b
-  , 	 // c66
-  Quote  
-      // c67
-	  ,
-        // c68
-int8	// c69a
-  // c69b
-	  Acct
-    // c70
-  , 
-      // c71
-  } packet Fill 
-        // c74
-  {
-	// c75
-	repeat 
-
-// c76
-  	Leg // c77
-	,	// c78a
-
-  // c78b
-	@rightPad  // c79a
-
-	// c79b
-  ('0' 	 // c81a
-
-	// c81b
-  ) 	 // c82
-char[
-	// c83
-  11
-    // c84
-	]
-    // c85
-
-Note
-
-    ,// c87a
-		// c87b
-		f64
-// c88
-  Px  ,
-// c90
-      @rightPad  // c91a
-	  // c91b
-	(// c92
-
-'\x00' 
-        // c93
-      )// c94a
-
-	// c94b
-    char[ 	 // c95a
-	  // c95b
-
-  5// c96
-      ]// c97a
-    // c97b
-  	Flags// c98
-	,zchar[ // c100a
-	// c100b
-  	9 	 // c101a
-  // c101b
-    ] 	 // c102
-	  x // c103
-    ,	// c104a
-    // c104b
-string // c105a
-// c105b
-    msgKind 	 // c106
-	,
-}// c108
-	root
-    packet  // c110a
-
-	// c110b
-    Order 	 // c111a
-	// c111b
-
-	{ 	 // c112
-  	Leg 	 // c113
-  ,// c114a
-	// c114b
-  repeat	// c115
-	Ack	// c116
-	  , @rightPad
-    (  // c119a
-  	// c119b
-	  '\x00'// c120
-  ) 
-char[ 
-      // c122
-3
-	] // c124a
-  // c124b
-	  Side2
-	    // c125
-
-	,// c126
-
-	repeat  
-  // c127
-  char[
-// c128
-	1	// c129a
-		// c129b
-    ] 	 // c130
-seqNo
-        // c131
-
-  ,  // c132
-u16	// c133
-
-  clOrdID 
-// c134
-    ,// c135a
-// c135b
-	match  
-      // c136
-	clOrdID// c137
-as Body
-        // c139
-	  { 
-    // c140
-      198	// c141a
-  	// c141b
-      : 	 // c142
-Leg // c143a
-
-// c143b
-  	, // c144a
-  // c144b
-	23
-	:
-
-    // c146
-
-	Quote  // c147a
-  // c147b
-
-,	// c148
-	13// c149a
-  // c149b
-	  : 	 // c150a
-	// c150b
-  Ack  // c151
-      , 
-// c152
-
-159 
-    // c153
-    :  
-  // c154
-	Fill 	 // c155a
-  // c155b
-	, 
-// c156
-  } 
-, u32
-venue  // c160
-
-@calculatedFrom( // c161a
-    // c161b
-""CRC32""	// c162
-		) // c163a
-  // c163b
-	,
-// c164
-    } // c165a
-		// c165b
-")).
-Eval vm_compute in ("<<<M1620>>>" ++ check (runes_of_ascii "
-
-  packet
-
-    _x
-
-{
-leftPad
-	`it's`	,
-
-    match
-Logon
-
-as
-    matchKey
-	{
-	""packet""
-    :  stringy ,
-
-    3
-
-    :
-u,//
-  ""1"" :
-Pad
-	}	,
-
-    float32 Z9_	@lengthOf( i8i8
-
-    ) `" ++ [233]%N ++ runes_of_ascii "`
-
-// " ++ [27880; 37322]%N ++ runes_of_ascii "
-  ,@tag( 3  )
-	match 
-  //	t
-    As as Pad 
-{""""
-:chars,""x y""	//
-    :	i64_ ,
-	}
-    , @calculatedFrom(  ""it's""  // c
-	)
-	@leftPad
+Eval vm_compute in ("<<<M320>>>" ++ check (runes_of_ascii "packet
+    /// triple
+    a1 { @rightPad ( ' ' ) @tag( 255
+)
+@lengthOf( zchar ) string MetaDataX	@calculatedFrom( ""CRC32"" ) // a // b
+`crlf
+line` ,u8 A @lengthOf( charz
+    ) ,
+    body ,@rightPad
+    ( '0'	)@lengthOf( charz ) match repeatCount as
+    Z9_ { 0123456789 : metadata // @lengthOf(
+,""" ++ [233]%N ++ runes_of_ascii "t" ++ [233]%N ++ runes_of_ascii """ : float  ,// packet A { u8 x, }
+""1"": Logon ,// " ++ [27880; 37322]%N ++ runes_of_ascii "
+},
+x_y_z`" ++ [233]%N ++ runes_of_ascii "`//x
+, @calculatedFrom(	""1"")match Header  as body
+    { 4294967296
+// @lengthOf(
+// @lengthOf(
+: MetaDataX
+,
+""abc"" //x
+: packetx
+    }
+, x_y_z @calculatedFrom( ""\" ++ [233]%N ++ runes_of_ascii """ ),i64_  @calculatedFrom(""abc"")`
+`,
+@rightPad //	t
 (
-    ' ')
+)
+    //	t
+    char
+    float
+@lengthOf(	trueish )
+, @tag(42 ) @leftPad ( '\x00' ) @calculatedFrom(	""\n"") repeat string
+tag, //x
+} packet
+tag { repeat T u `
+` , string u128 @calculatedFrom( // `tick` ""quote"" 'q'
+""packet"" )`u8 x,` ,
+// trailing space 
+//x
+repeat
+    f64
+stringy `" ++ [233]%N ++ runes_of_ascii "` , u32 leftPad  @lengthOf(float ) , uint32	i8i8
+@lengthOf( f32a
+) , int@calculatedFrom( """ ++ [233]%N ++ runes_of_ascii "t" ++ [233]%N ++ runes_of_ascii """ )
+    ,
+    // c
+    @calculatedFrom( ""\n""
+) @leftPad
+    ( '\x00') @rightPad
+    ()
+    repeat
+pack  `// not a comment` , @calculatedFrom( ""1""	)
+    char[]  string_
+,f64 calculatedFrom
+    @lengthOf(	pack)  `tab	here`,@tag(00 ) int8 tag
+    ,
+} options { f32a
+= ""a	b"" _x = false ; _x = '0' o= false /// triple
+} packet falsey
+    /// triple
+    { @tag(
+    // trailing space 
+    007 ) string falsey,
+i64_
+@lengthOf(crc),repeat // c
+u128 body// packet A { u8 x, }
+, char[ 00]roots,/// triple
+metadata @lengthOf(packetx // `tick` ""quote"" 'q'
+)
+    `
+`	,// trailing space 
+string_
+BodyLength, @calculatedFrom(
+""it's"" ) repeat matchKey ,
+metadata
+    @calculatedFrom( ""abc""
+)// @lengthOf(
+,
+@tag( 255 )repeat
+Pad
+    {
+char[] packetx ,repeat o { int16 charz
+    // packet A { u8 x, }
+    ,packetx {
+i8
+//
+// packet A { u8 x, }
+zchar ,} ,char[10 //x
+]x
+, repeat zchar[ 0123456789 ]
+pack , // c
+} ,	int ,
+i8 asx ,
+}
+,}
+packet leftPad
+    { @tag(255
+    /// triple
+    )repeat uint16 msg_type  ,
+    // c
+    f32  trueish @calculatedFrom("""" )	`two words` // `tick` ""quote"" 'q'
+, @leftPad( '\x00' ) @lengthOf( leftPad
+) // a // b
+@lengthOf( asx // a // b
+)
+    //	t
+    zchar[ 1] roots @calculatedFrom(
+""abc""
+) ,pack @lengthOf(
+Z9_ ), @tag(
+65535) @lengthOf(Header
+    ) // c
+f64 tag , @tag( 1
+)repeat
+    u8x, match stringy// c
+as x { ""it's"" // " ++ [27880; 37322]%N ++ runes_of_ascii "
+: Z9_ ,7 : u128 ,
+""// no comment"" :trueish, 00
+:
+    //	t
+    f32a ,
+    [3,  1, 00]:	pack,""" ++ [28040; 24687]%N ++ runes_of_ascii """
+    // trailing space 
+    : options1	,
+// `tick` ""quote"" 'q'
+//x
+} ,
+repeat // `tick` ""quote"" 'q'
+u128 { repeat
+crc
+{ int16	int ,  }
+// c
+// @lengthOf(
+, }
+    // @lengthOf(
+    , @leftPad ( ' '  ) // trailing space 
+repeat
+zchar[ 255 ]
+// " ++ [128512]%N ++ runes_of_ascii " emoji
+// `tick` ""quote"" 'q'
+int `crlf
+line` ,@tag( 1 ) Logon roots
+    `// not a comment` , }
+")).
+Eval vm_compute in ("<<<M1859>>>" ++ check (runes_of_ascii "packet
 
-zchar[ 
+lengthOf
+
+    {
+	@tag(
+65535
+/// triple
+  //	t
+    )
+@tag( 	 //	t
+  3	)
+@tag(
 0123456789
 
-]falsey
-    , match 
-A as	packetx
-    { [  42 ]
-:
+    )
+options1	@calculatedFrom(
 
-matchKey 	 // c
-  , }  // `tick` ""quote"" 'q'
+""abc"" 
+)
+	,  @rightPad	(
+	'0'
+    )
 
-	,
-@leftPad (
+    falsey	@lengthOf( a1
+) , 
+@lengthOf( Pad
 
-    ' ') match
-x
-    // c
-	as a1
+    )
+body 
+@calculatedFrom(  // " ++ [128512]%N ++ runes_of_ascii " emoji
 
-    {
+	""packet"" 
+)	// trailing space 
+,  }	packet
+    int
+{
+	string
 
-""packet"" 	 //x
-    :  a1
-    ,	10 :
-pack  ""{,}""
-    :
-	u8x  // a // b
-	,
-[ 007 , 
-00 // trailing space 
+    Foo
+
+    @calculatedFrom( ""CRC32"" 
+) ,
+
+    }
+    root 
+
+// trailing space 
+    //	t
+  packet  uint8x 
+{
+} 
+root
+    packet
+    len {  x_y_z
+
+_x ,
+
+BodyLength  rootA
+	    /// triple
+//
+		,
+match
+
+f32a as
+	Logon{
+
+    [ 
+""a\""b"", """ ++ [28040; 24687]%N ++ runes_of_ascii """,
+	""" ++ [128512]%N ++ runes_of_ascii """ ,  65535
+, 00  ,4294967296
+
+    ,  """"
+
+    ,
+	""abc""
+    ]
+    :  roots	,  [ 00
+]  :  A
+,
+[
+65535 
+	// a // b
+    // trailing space 
+  , 
+// trailing space 
+		// " ++ [128512]%N ++ runes_of_ascii " emoji
+65535	,
+""""
 ]
+    // c
+	  // packet A { u8 x, }
+	:  
+      // " ++ [128512]%N ++ runes_of_ascii " emoji
 
-    : trueish, 
-""x y"":	pack 	 //	t
+	// trailing space 
+pack 
+,
+
+}  
+      // trailing space 
   ,
 
-    """ ++ [233]%N ++ runes_of_ascii "t" ++ [233]%N ++ runes_of_ascii """ :matchKey ,
-}
-,
-@leftPad 
-(
-	'0' ) uint8x
+    repeat  Pad  `say ""hi""`
 
-u
-,
-zchar[
-	3 // a // b
-	] 
-//	t
-  	u `` ,
+, 
+/// triple
+	a1 calculatedFrom ,
+@lengthOf(
+	stringy
+	)
+    char[]
 
-@rightPad
-	( 
-' '
-	) repeat	_x
-	``  ,  }MetaData
+As
+    @calculatedFrom(
 
-Foo{ a1 Z9_
-,
+""\" ++ [233]%N ++ runes_of_ascii """)
 
-options1  T,
+    ,zchar[ 0123456789 ] Z9_
+@lengthOf( repeatCount ) // packet A { u8 x, }
 
-u32
-    u8x	`crlf
-line`
-,  metadata
-falsey
-	, lengthOf
-x_y_z , }
+  `a\`
 
-packet
-calculatedFrom
-{
-@tag(
-3 )string
-
-    A
-
-, match leftPad as
-	a1 
-{	//	t
-0123456789  :
-	calculatedFrom	,	}
-,
-match
-crc //
-
-as
-	body {00: _x ,	}
-,
-
-o@calculatedFrom(""x y"") 
-  //
-    // " ++ [128512]%N ++ runes_of_ascii " emoji
-	,
-
-    }  packet
-
-    T
-
-    { } packet 
-Logon
-    { @leftPad
-( 	 // @lengthOf(
-    '\x00') As	@calculatedFrom(
-
-""a	b""
-    )
-    `line1
-line2`
-
-    ,
-
-pack lengthOf	// `tick` ""quote"" 'q'
-    	, }	// `tick` ""quote"" 'q'")).
-Eval vm_compute in ("<<<M282>>>" ++ check (runes_of_ascii "// a // b
-packet stringy	{
-string zchar ,
-    repeat T
-, match
-u
-as  charz {
-007
+    ,repeat	// `tick` ""quote"" 'q'
+    	string	lengthOf
+, //x
+	u8
+    falsey	@calculatedFrom(  ""a\\"")
+	,@calculatedFrom(""it's""
+)string 
+calculatedFrom @lengthOf( MetaDataX
+	)
+	,}
+")).
+Eval vm_compute in ("<<<M134>>>" ++ check (runes_of_ascii "packet // " ++ [128512]%N ++ runes_of_ascii " emoji
+x{
     //x
-    :
-//	t
+    lengthOf @calculatedFrom(""abc"")
+`u8 x,`
+    ,
+@rightPad( )
+//x
 // @lengthOf(
-float// trailing space 
-,""\" ++ [233]%N ++ runes_of_ascii """ : Logon ""a	b"":
-//	t
-//	t
-pack, } , match uint8x as
+float32 Packet @lengthOf( falsey ) ,	char[ 10] falsey , @tag( 3  ) repeat zchar[
+    4294967296 ] repeatCount ,repeatCount`say ""hi""` , int16 u128 // `tick` ""quote"" 'q'
+,
+char[ 3
+] crc
+@calculatedFrom( ""x y"" )
+, // trailing space 
+@leftPad
+    (
     // " ++ [27880; 37322]%N ++ runes_of_ascii "
-    roots
-{
-1
+    '\x00' )	match chars as i8i8 {
+    42 : charz// trailing space 
+,}
+, }  options {	} MetaData metadata { char[ 4294967296 ] i8i8	,
+    float
+    rootA , i64
+    packetx // " ++ [27880; 37322]%N ++ runes_of_ascii "
+, i8 // " ++ [27880; 37322]%N ++ runes_of_ascii "
+roots `crlf
+line`
+    ,
+    tag i64_  , uint8 Pad `" ++ [233]%N ++ runes_of_ascii "`
+, }root packet Header{
+u64 options1  `two words`
+    , @calculatedFrom(""a\\"" // trailing space 
+) // " ++ [128512]%N ++ runes_of_ascii " emoji
+i32 //	t
+x_y_z	@calculatedFrom( ""a\""b"")`tab	here` , match
+A as len { [ ""CRC32"" // " ++ [128512]%N ++ runes_of_ascii " emoji
+,""it's""  ] //	t
+: Z9_ ""a	b"" :
+    o ,
+} , match asx
+as pack {0 :	x_y_z , }
+    , char[] i64_ `{ , }`
+,
+    }
+MetaData stringy
+{ // trailing space 
+lengthOf
+// `tick` ""quote"" 'q'
+//	t
+o, string//
+u8x , f32 string_ `doc` ,}
+")).
+Eval vm_compute in ("<<<M70>>>" ++ check (runes_of_ascii "packet pack { @lengthOf(
+Foo
+    // c
+    )
+    asx @lengthOf( _x ) /// triple
+, u8	x_y_z `two words` ,repeat
+    zchar[0
+    ] roots `
+`
     // `tick` ""quote"" 'q'
-    : len
-,	}
+    , lengthOf @calculatedFrom( ""abc""
+) ,
+@tag( 3 ) @rightPad	( ' ')@calculatedFrom(
+""1""
 //x
 // " ++ [27880; 37322]%N ++ runes_of_ascii "
-, }packet zchar {	roots options1
-    //x
-    `// not a comment` , int64 As
+)
+repeat uint64 i64_ // trailing space 
+`say ""hi""` // @lengthOf(
+,	@tag( 007 ) match roots as float {	""a	b""
+    : lengthOf,
+    [1, // @lengthOf(
+""\n""
 ,
-    i16 float
-    @lengthOf( falsey
-    // " ++ [27880; 37322]%N ++ runes_of_ascii "
-    ) `a\`
-    , int64 msg_type `tab	here`
-, @tag(0
-    // `tick` ""quote"" 'q'
-    ) repeat uint8x ,
-    @lengthOf(x
-    ) repeat metadata
-    , zchar[ 0 ]	int , uint64
-    zchar ,zchar[7 // " ++ [27880; 37322]%N ++ runes_of_ascii "
+""a\""b"" , ""\" ++ [233]%N ++ runes_of_ascii """ ,  ""1"",
+    42 ]: msg_type, """ ++ [128512]%N ++ runes_of_ascii """: Foo} ,T//x
+{
+    match
+Header
+as trueish
+{ [
+// `tick` ""quote"" 'q'
+// @lengthOf(
+0 , 3// @lengthOf(
+, ""{,}"" ,
+""1"" ,
+00  ,
+0123456789
+,
+    ""// no comment"" ]
+:As
+    , }
+    , } , repeat char[
+    10
 ]
-msg_type
-,
-@calculatedFrom(
-/// triple
-// " ++ [27880; 37322]%N ++ runes_of_ascii "
-""" ++ [28040; 24687]%N ++ runes_of_ascii """ ) crc
-, }
-root packet zchar { repeat
-leftPad,
-} packet
-A{
-@lengthOf(
-    string_ )	x@lengthOf( options1) `two words`,  string
-len ,	}packet	falsey{ i64_ @calculatedFrom(	""{,}"" ) , repeat
-string chars
-, zchar[ 7]calculatedFrom
-, Header
-    { char u`two words`, repeat char[] // c
-tag
-    `say ""hi""`	, Z9_
-    @lengthOf(
-T ) `line1
-line2` , } , msg_type @calculatedFrom( ""// no comment""
-    ) , @rightPad (// packet A { u8 x, }
-'\x00' )
-@lengthOf( asx )
-falsey
-,
-    } // packet A { u8 x, }")).
-Eval vm_compute in ("<<<M174>>>" ++ check (runes_of_ascii "
-root packet asx { leftPad
-    {u128 @calculatedFrom( ""1""
-) , //x
-}
-, lengthOf // packet A { u8 x, }
-@calculatedFrom( """ ++ [128512]%N ++ runes_of_ascii """ ) `a\`
-, i64 // `tick` ""quote"" 'q'
-Packet @lengthOf(  calculatedFrom ) , @calculatedFrom(
-""" ++ [233]%N ++ runes_of_ascii "t" ++ [233]%N ++ runes_of_ascii """ ) stringy	a1 `doc` // `tick` ""quote"" 'q'
-, @rightPad
-    (
-    // a // b
-    )
-    // c
-    a1
-    `a\`
-,  char
-Header @lengthOf(
-    x )`say ""hi""`, uint8x
-Z9_ `tab	here` ,  }
-options
-    {
-    calculatedFrom// packet A { u8 x, }
-= 0}	packet metadata {@leftPad ( '\x00'	) f32
-    pack
-//	t
-//
-, @tag( 65535 ) u32 uint8x @lengthOf( repeatCount) ``,MetaDataX	{ repeat options1 , match
-matchKey as len { """ ++ [128512]%N ++ runes_of_ascii """:
-    u8x	, 1 :
-zchar
-, /// triple
-[ ""a\\""
-    ,
-    ""x y"" ] : charz 0
-    :
-    x_y_z
+o `
+`
+, @calculatedFrom(
     //
-    ,[// trailing space 
-4294967296// `tick` ""quote"" 'q'
-]: asx  , [/// triple
-""a\""b"" , ""\n"" , ""\" ++ [233]%N ++ runes_of_ascii """ ,10 ] : _x ,
-    }	, uint8  metadata
-@lengthOf(float
-) ,
-zchar[
-    255] i8i8 , },
-    }root  packet
-f32a
-    { }")).
-Eval vm_compute in ("<<<M1514>>>" ++ check (runes_of_ascii "options {
-    FixedStringPadFromLeft = true;
-    FixedStringPadChar = '0';
+    ""`tick`"" //x
+) repeat crc {
+    repeatCount o ,
+    u8x
+As, } ,
+} packet pack{@calculatedFrom( """ ++ [233]%N ++ runes_of_ascii "t" ++ [233]%N ++ runes_of_ascii """ )  u32 f32a
+,
 }
-
-packet Leg {
-    repeat InSym93 {
-        zchar[3] Acct,
-        string Side2,
-        i32 Flags,
-        f32 Note,
-        i32 msgKind,
-    },
-    f64 Note,
-    uint16 Px,
-}
-
-packet Quote {
-    zchar[2] OrderId,
-}
-
-packet Ack {
-    repeat string lastPx,
-    zchar[4] price,
-    uint32 OrderId,
-    Quote,
-    int8 Acct,
-}
-
-packet Fill {
-    repeat Leg,
-    @rightPad('0')
-    char[11] Note,
-    f64 Px,
-    @rightPad('\x00')
-    char[5] Flags,
-    zchar[9] x,
-    string msgKind,
-}
-
-root packet Order {
-    Leg,
-    repeat Ack,
-    @rightPad('\x00')
-    char[3] Side2,
-    repeat char[1] seqNo,
-    u16 clOrdID,
-    match clOrdID as Body {
-        198 : Leg,
-        23 : Quote,
-        13 : Ack,
-        159 : Fill,
-    },
-    u32 venue @calculatedFrom(""CR\
-    C32""),
-}")).
-Eval vm_compute in ("<<<M1428>>>" ++ check (runes_of_ascii "
-// a // b
-
+    MetaData float
+{u32 options1 , }
 packet
-    stringy	{ @tag(3
-	) 	 // trailing space 
-  i64 
-len ,@calculatedFrom(
-
-    ""1""
-
-    )
-char[0
-]
-    x
-@lengthOf( 
-Foo 
-)  ,
-
-    @calculatedFrom(""""
-) body
-	    // c
-  // " ++ [128512]%N ++ runes_of_ascii " emoji
-@lengthOf(
-
-calculatedFrom )  `line1
-line2`
-
-,	@calculatedFrom(""it's""	// " ++ [128512]%N ++ runes_of_ascii " emoji
-)  // packet A { u8 x, }
-	match falsey
-
-// packet A { u8 x, }
-as
-    u8x{
-[
-""" ++ [128512]%N ++ runes_of_ascii """ 
-, 	 // a // b
-	  42 ,
-
-1 
+f32a { }
+")).
+Eval vm_compute in ("<<<M280>>>" ++ check (runes_of_ascii "packet	crc{@lengthOf( stringy// a // b
+) @leftPad (
+'0'
+    ) @calculatedFrom(
+""packet"" )
+repeat char[
+    // c
+    3]  i64_ // a // b
+, match
+    options1	as o { 255 :msg_type
 ,
-
-10
-]:
-
-    Header
-
-    ,
-}	, 
-        // trailing space 
-	// `tick` ""quote"" 'q'
-	}
-MetaData	// " ++ [128512]%N ++ runes_of_ascii " emoji
-
-stringy{f32a
-u128 
-`{ , }`
-
-    ,	char[ // a // b
-      10 
-]
-
-    u128	,
-chars
-	_x
-,
-    zchar[65535  // trailing space 
-] /// triple
-  falsey
-`{ , }`, _x
-
-i64_ ,
-
-int32
-	Packet`crlf
-line`, }
-MetaData
-
-lengthOf 
-{} 
+    ""\n"": MetaDataX , 42: msg_type """ ++ [128512]%N ++ runes_of_ascii """
+    : lengthOf,""// no comment"" :falsey , }
+/// triple
 // trailing space 
+, @leftPad( )
+    @lengthOf( A
+    ) @calculatedFrom( ""x y"" ) uint32// a // b
+charz `doc`, len ,@calculatedFrom( ""// no comment"" ) match _x
+    //x
+    as i64_	{ 65535
+    :
+    // @lengthOf(
+    u8x , } ,
+char[]
+    a1 // @lengthOf(
+, Foo { u8x{ char[]
+Logon
+    `// not a comment`	,}, match metadata as u128 { // trailing space 
+42 : u8x
+, 65535 : f32a
+    } //x
+, asx// " ++ [128512]%N ++ runes_of_ascii " emoji
+@lengthOf( matchKey  ) ,} , roots @calculatedFrom( // packet A { u8 x, }
+""a\""b"" )
+,	zchar[
+7] int	, repeat pack	trueish ,
+    }
+")).
+Eval vm_compute in ("<<<M354>>>" ++ check (runes_of_ascii "options {
+} packet u8x{ string uint8x@calculatedFrom(""{,}"" )	`crlf
+line`	,} MetaData falsey{
+    Logon packetx `tab	here` , } root packet o
+{ falsey@calculatedFrom(
+//x
+// " ++ [27880; 37322]%N ++ runes_of_ascii "
+""" ++ [28040; 24687]%N ++ runes_of_ascii """ ) ,	@tag(0123456789) // `tick` ""quote"" 'q'
+char[
+    // `tick` ""quote"" 'q'
+    0123456789
+]	u128@calculatedFrom(
+""{,}"" ) ,
+    @tag(
+    00)
+@lengthOf( stringy
+) @tag( 4294967296
+)  rootA Header,  @lengthOf(As
+    )
+    repeat leftPad `// not a comment`// c
+, i8 leftPad @calculatedFrom( """" ) , @tag( 10
+) zchar[ 007
+] packetx
+@lengthOf( // packet A { u8 x, }
+u8x )	`" ++ [28040; 24687; 31867; 22411]%N ++ runes_of_ascii "` ,
+}packet	options1 {
+//	t
+// trailing space 
+falsey// packet A { u8 x, }
+{ //	t
+zchar[ 3
+    ]// " ++ [128512]%N ++ runes_of_ascii " emoji
+roots
+//
+// a // b
+,
+    u32 Header // c
+,
+} ,// a // b
+}")).
+Eval vm_compute in ("<<<M1779>>>" ++ check (runes_of_ascii "// top
+    root 	 // c0
+
+	packet 	 // c1
+	_x  // c2
+    { 	 // c3
+    match  // c4
+	  Foo 	 // c5
+
+as// c6
+  Z9_ 	 // c7
+{// c8
+    ""a	b"" 	 // c9
+:	// c10
+  Pad 	 // c11
+    , // c12
+}  // c13
+  ,  // c14
+      repeat 	 // c15
+x // c16
+	`line1
+line2` // c17
+      ,// c18
+@rightPad  // c19
+
+  (	// c20
+' '  // c21
+)	// c22
+  @calculatedFrom(  // c23
+  ""a\\"" // c24
+    )  // c25
+      metadata // c26
+    MetaDataX	// c27
+	, 	 // c28
+    @tag( 	 // c29
+
+  0  // c30
+
+)	// c31
+  	Logon// c32
+		int 	 // c33
+      ``	// c34
+
+,// c35
+    	}	// c36
+	options 	 // c37
+	  { 	 // c38
+    T 	 // c39
+	= // c40
+
+  '\x00'	// c41
+    }  // c42
  
 ")).
-Eval vm_compute in ("<<<M1363>>>" ++ check (runes_of_ascii "options {
-    StringPrefixLenType = u8;
-    ArrayPrefixLenType = u32;
-    FixedStringPadFromLeft = true;
-    FixedStringPadChar = ' ';
-}
-packet Leg {
-}
-packet Heartbeat {
-    zchar[6] msgKind,
-    @rightPad('0') char[3] Qty,
-    zchar[9] Side2,
-    i8 Acct,
-}
-packet Logout {
-    int8 x,
-}
-packet Order {
-    char[] Acct,
-    zchar[8] count,
-    u32 OrderId,
-    uint8 lastPx,
-    u16 clOrdID,
-    zchar[7] Note,
-}
-root packet Reject {
-    @leftPad(' ') char[8] Side2,
-    i8 clOrdID,
-    repeat f32 x,
-    u32 lastPx,
-    match lastPx as Body {
-        [30, 147] : Heartbeat,
-        134 : Leg,
-        183 : Logout,
-        40 : Order,
-    },
-    u16 Ref @calculatedFrom(""CR\
-C32""),
-}
-")).
-Eval vm_compute in ("<<<M206>>>" ++ check (runes_of_ascii "//x
-root
-    // " ++ [128512]%N ++ runes_of_ascii " emoji
-    packet
-// `tick` ""quote"" 'q'
-/// triple
-float{options1 A
-,@tag(
-42 )
-    u8x{ tag //x
-@calculatedFrom(	""\" ++ [233]%N ++ runes_of_ascii """) // packet A { u8 x, }
-`tab	here` ,
-    }
-    , int16 asx ,
-    @lengthOf( o
-    )
-@rightPad( ) repeat int
-/// triple
-/// triple
-Logon,@calculatedFrom(""// no comment"" )  @leftPad('\x00')
-    @rightPad('0'	)	zchar[ 65535 //x
-] o `
-`
-    ,
-    repeat As{ //x
-repeat uint16 o ,repeat
-char[ // trailing space 
-1
-    ]o ,
-u128
-metadata	, repeat char[7	] Header ,
-    } , @tag( 0123456789
-    ) a1 tag
-    , float32 asx ,
-    repeat // packet A { u8 x, }
-len
-``
-    ,}
-")).
-Eval vm_compute in ("<<<M1342>>>" ++ check (runes_of_ascii "options {
-    LittleEndian = false;
-    ArrayPrefixLenType = u8;
-    FixedStringPadFromLeft = true;
-    FixedStringPadChar = '0';
-}
-packet Heartbeat {
-    string lastPx,
-    uint8 Qty,
-    i64 Acct,
-    char[4] Ref,
-}
-packet Fill {
-    uint8 Ref,
-    Heartbeat,
-    f32 OrderId,
-    repeat f32 x,
-}
-root packet Order {
-    zchar[2] OrderId,
-    zchar[2] Acct,
-    zchar[1] Note,
-    zchar[9] Qty,
-    string price,
-    string tag7,
-    u32 x,
-    match x as Body {
-        123 : Fill,
-        112 : Heartbeat,
-    },
-    u32 seqNo @calculatedFrom(""CRC32""),
-}
-")).
-Eval vm_compute in ("<<<M1349>>>" ++ check (runes_of_ascii "options {
-    ArrayPrefixLenType = u64;
-    FixedStringPadFromLeft = true;
-    FixedStringPadChar = '0';
-}
-packet Quote {
-}
-packet Ack {
-    repeat InNote66 {
-        u8 pad0,
-    },
-}
-packet Reject {
-}
-root packet Order {
-    Quote,
-    repeat Reject,
-    string venue,
-    string seqNo,
-    uint32 Ref,
-    u16 lastPx,
-    u32 clOrdID @lengthOf(Body),
-    match lastPx as Body {
-        190 : Reject,
-        186 : Quote,
-        22 : Ack,
-    },
-    u16 Flags @calculatedFrom(""CR\
-C32""),
-}
-")).
-Eval vm_compute in ("<<<M140>>>" ++ check (runes_of_ascii "
-root packet int{	repeat
-    float tag , char[] roots
-, @lengthOf( repeatCount ) @lengthOf( // packet A { u8 x, }
-rootA)
-uint16 o
-    `tab	here` ,
-    //	t
-    i16 Pad `line1
-line2` , Pad{match Pad as
-    _x
-{ [00]
-:
-    Z9_
-, } ,} , repeat zchar calculatedFrom`a\` ,	f64 // @lengthOf(
-charz
-    //x
-    ,Pad
-    Foo,@calculatedFrom(
-    """ ++ [28040; 24687]%N ++ runes_of_ascii """ )
-    charz
-    @lengthOf( charz ), @lengthOf(
-    rootA ) match o
-as body {00 :
-x_y_z// " ++ [128512]%N ++ runes_of_ascii " emoji
-} ,}
-")).
-Eval vm_compute in ("<<<M1331>>>" ++ check (runes_of_ascii "packet	Frame
-
-{  u8 HK 
-,  u8
-
-BK, u8
-    TK
-,match 
-HK as
-
-Hdr
-{	1
-
-    :
-    HdrA 
-,
-
-2 : HdrB
-, },	match	BK
-as
-
-Body{  1	:
-
-    BodyA ,  2
-:
-
-    BodyB 
-,}
-	, 
-match
-
-    TK as Trl {
-	1 : TrlA
-
-,} , } packet HdrA { u8 a  ,
-}packet
-    HdrB 
-{ 
-u16
-    b
-	,  }packet BodyA{ u32 c ,
-}packet
-    BodyB
-	{
-
-    u64
-d , }
-    packet
-TrlA  {  u8
-e,} root
-	packet
-Msg
-
-{ Frame
-,
-    u8
-
-x,} ")).
-Eval vm_compute in ("<<<M106>>>" ++ check (runes_of_ascii "MetaData Pad
-    {
-    i16 repeatCount , // c
-f32 pack `a\`,} packet//
-f32a {@lengthOf( metadata // a // b
-)match msg_type as matchKey
-    {
-00: rootA ,  }, @rightPad ( ) match repeatCount as len {
-    [/// triple
-""x y""
-// c
-//
-,
-10] : As , 42: i64_""" ++ [128512]%N ++ runes_of_ascii """	: BodyLength
-, 7
-: f32a  ,
-    }
-    ,	@lengthOf( BodyLength )	repeat Foo `line1
-line2` , } // @lengthOf(")).
-Eval vm_compute in ("<<<M240>>>" ++ check (runes_of_ascii "
-packet BodyLength { repeatCount // packet A { u8 x, }
-`// not a comment`
-,
-@lengthOf( lengthOf	)  @tag( 65535
-    )@rightPad (
-// @lengthOf(
-//	t
-'0' )/// triple
-u8 Logon , } packet chars { o msg_type , @tag( 10)zchar[ 65535
-] f32a
-,repeat char[]
-i64_
-`
-` ,} root packet f32a { @tag( 255 )repeat u8 stringy, }
-")).
-Eval vm_compute in ("<<<M1811>>>" ++ check (runes_of_ascii "MetaData T {
-    uint8 float,
-    repeatCount x,
-    char[10] asx,
-    char[00] metadata `" ++ [233]%N ++ runes_of_ascii "`,
-    u8x asx,
-}
-
-MetaData trueish {
-    charz string_ `crlf
-        line`,
-    zchar[42] _x,
-}
-
-packet o {
-    char[] u8x @calculatedFrom(""abc""),
-}
-
-options {
-    x = 255;
-    u = '0'
-}")).
-Eval vm_compute in ("<<<M1253>>>" ++ check (runes_of_ascii "// top
-packet // c0
-Inner // c1
-{ // c2
-u8 // c3a
-  // c3b
-a // c4
-,
-    // c5
-} // c6
-root // c7
-packet // c8a
-  // c8b
-P // c9
-{ // c10a
-  // c10b
-repeat // c11a
-  // c11b
-Inner items // c13
-, // c14
-u8
-    // c15
-x , // c17a
-  // c17b
-} // c18
-")).
-Eval vm_compute in ("<<<M1318>>>" ++ check (runes_of_ascii "packet FooBar // c1
-{ u8 a ,
-    // c5
-} // c6
-packet foo_bar // c8a
-  // c8b
-{
-    // c9
-u16
-    // c10
-b , // c12a
-  // c12b
-} // c13
-root // c14
-packet R { // c17a
-  // c17b
-FooBar ,
-    // c19
-foo_bar // c20
-, } ")).
-Eval vm_compute in ("<<<M1530>>>" ++ check (runes_of_ascii "packet FooBar {
-    u8 a,
-    // c5
-}// c6
-
-packet foo_bar {
-    // c9
-    u16 b,// c12a
-    // c12b
-}// c13
-
-root packet R {
-    // c17a
-    // c17b
-    FooBar,
-    // c19
-    foo_bar,
-}")).
-Eval vm_compute in ("<<<M1195>>>" ++ check (runes_of_ascii "// top
-packet
-    // c0
-body
-    // c1
+Eval vm_compute in ("<<<M1294>>>" ++ check (runes_of_ascii "// top
+packet // c0a
+  // c0b
+A // c1
 {
     // c2
-i32
+u8
     // c3
-f32a
-    // c4
-`{ , }`
-    // c5
+a // c4a
+  // c4b
+, } // c6a
+  // c6b
+packet // c7a
+  // c7b
+B // c8a
+  // c8b
+{ u16 // c10
+b // c11a
+  // c11b
 ,
-    // c6
+    // c12
 }
-    // c7
-options
-    // c8
-{
-    // c9
-}
-    // c10
+    // c13
+root // c14
+packet P // c16
+{ // c17a
+  // c17b
+u8 K1 // c19
+, // c20
+u8 // c21a
+  // c21b
+K2 // c22a
+  // c22b
+, // c23a
+  // c23b
+match // c24a
+  // c24b
+K1 as
+    // c26
+M1 // c27a
+  // c27b
+{ // c28a
+  // c28b
+1
+    // c29
+:
+    // c30
+A // c31
+, // c32a
+  // c32b
+} , match K2
+    // c36
+as
+    // c37
+M2 // c38
+{ 1 : // c41a
+  // c41b
+B
+    // c42
+, } ,
+    // c45
+} // c46
 ")).
-Eval vm_compute in ("<<<M501>>>" ++ check (runes_of_ascii "packet uint8x
+Eval vm_compute in ("<<<M1367>>>" ++ check (runes_of_ascii "options {
+    StringPrefixLenType = u8;
+    ArrayPrefixLenType = u8;
+    FixedStringPadFromLeft = false;
+    FixedStringPadChar = ' ';
+}
+packet Ack {
+    char[] tag7,
+}
+packet Reject {
+    InSym61 {
+        repeat Ack,
+        zchar[4] f1,
+    },
+}
+packet Logout {
+    char[4] clOrdID,
+}
+root packet Cancel {
+    @leftPad(' ') char[10] price,
+    u8 x,
+    u32 venue @lengthOf(Body),
+    match x as Body {
+        [92, 175] : Logout,
+        26 : Reject,
+        144 : Ack,
+    },
+    u16 count @calculatedFrom(""CRC32""),
+}
+")).
+Eval vm_compute in ("<<<M1235>>>" ++ check (runes_of_ascii "// top
+options
+    // c0
+{
+    // c1
+f32a
+    // c2
+=
+    // c3
+0
+    // c4
+}
+    // c5
+packet
+    // c6
+trueish
+    // c7
+{
+    // c8
+}
+    // c9
+MetaData
+    // c10
+_x
+    // c11
+{
+    // c12
+char[
+    // c13
+0123456789
+    // c14
+]
+    // c15
+zchar
+    // c16
+,
+    // c17
+string
+    // c18
+crc
+    // c19
+,
+    // c20
+char[
+    // c21
+1
+    // c22
+]
+    // c23
+options1
+    // c24
+,
+    // c25
+uint8
+    // c26
+repeatCount
+    // c27
+,
+    // c28
+}
+    // c29
+")).
+Eval vm_compute in ("<<<M1799>>>" ++ check (runes_of_ascii "packet int {
+    zchar[007] metadata,
+    i16 matchKey,
+    @rightPad('0')
+    @lengthOf(metadata)
+    repeat zchar[10] charz,
+}
+
+packet int {
+    @tag(65535)
+    u32 x @calculatedFrom(""x y""),
+    match pack as MetaDataX {
+        [""abc"", 0123456789, ""`tick`""] : body,
+    },
+    @lengthOf(zchar)
+    match leftPad as u8x {
+        10 : u8x,
+        [007, 255] : chars,
+        """" : body,
+        42 : trueish,
+    },
+}")).
+Eval vm_compute in ("<<<M292>>>" ++ check (runes_of_ascii "packet/// triple
+matchKey { float32 float,@calculatedFrom(""a\\""// " ++ [27880; 37322]%N ++ runes_of_ascii "
+) @rightPad
+( '\x00' )i16 tag  @calculatedFrom(""abc"" ) ,
+repeat zchar[255
+] pack
+    , @lengthOf( Z9_ ) tag , } // trailing space 
+root
+packet rootA { repeat metadata { Logon , }, @tag( 10)
+@lengthOf( A )
+@tag( 007)
+u32
+    options1, match float as u {0123456789 : u8x ,} ,	}// " ++ [27880; 37322]%N ++ runes_of_ascii "
+root packet lengthOf { }
+")).
+Eval vm_compute in ("<<<M1724>>>" ++ check (runes_of_ascii "// top
+root packet Frame {
+    u8 K,
+    // c6
+    Logon first,// c9
+    match K as Body {
+        // c14
+        1 : Logon,
+        // c18a
+        // c18b
+        2 : Logout,
+        // c22
+    },// c24a
+    // c24b
+}// c25a
+
+// c25b
+packet Logon {
+    string user,// c31
+}// c32
+
+packet Logout {
+    u16 reason,// c38a
+    // c38b
+}// c39a
+// c39b")).
+Eval vm_compute in ("<<<M1393>>>" ++ check (runes_of_ascii "packet As {
+    @leftPad()
+    char[0] Logon,
+    char[0] Z9_ @calculatedFrom(""abc""),
+    @tag(4294967296)
+    i64 matchKey @calculatedFrom(""// no comment"") `two words`,
+    i16 A,
+}// " ++ [27880; 37322]%N ++ runes_of_ascii "
+
+packet T {
+    zchar[3] tag @lengthOf(chars),
+}
+
+packet BodyLength {
+    calculatedFrom @lengthOf(body) `
+        `,
+}// a // b")).
+Eval vm_compute in ("<<<M89>>>" ++ check (runes_of_ascii "packet Foo // " ++ [128512]%N ++ runes_of_ascii " emoji
+{@lengthOf( f32a )
+char[
+0123456789 //	t
+] float `u8 x,` ,}
+    packet // a // b
+i64_ {@lengthOf(stringy // packet A { u8 x, }
+)
+    char[] int @calculatedFrom(""{,}"" ) ,@tag(
+007 ) //
+int64
+stringy`" ++ [233]%N ++ runes_of_ascii "` ,  char[]A @calculatedFrom(
+""\" ++ [233]%N ++ runes_of_ascii """
+    )	`doc` ,// " ++ [27880; 37322]%N ++ runes_of_ascii "
+}
+")).
+Eval vm_compute in ("<<<M254>>>" ++ check (runes_of_ascii "packet  zchar
+{ zchar[ 42
+//
+//
+]uint8x ,
+    match
+    A as
+As{
+    0: int
+    ,
+}
+, @tag(7 ) @calculatedFrom(
+""packet"" ) match
+i64_
+as metadata //	t
+{
+    ""CRC32"" :
+A , }
+,
+    // c
+    }	root
+packet
+uint8x {
+    char[ 00 ]	crc
+,// " ++ [128512]%N ++ runes_of_ascii " emoji
+} 	 ")).
+Eval vm_compute in ("<<<M358>>>" ++ check (runes_of_ascii "
+packet matchKey	{ // @lengthOf(
+@lengthOf(
+a1 ) string_
+T`" ++ [28040; 24687; 31867; 22411]%N ++ runes_of_ascii "`, //
+} packet body {f32 _x  , packetx @lengthOf(
+options1 ) // packet A { u8 x, }
+`` , @leftPad ( ' ') i16 crc ,@calculatedFrom(
+""" ++ [128512]%N ++ runes_of_ascii """
+)	Pad
+, } //")).
+Eval vm_compute in ("<<<M1311>>>" ++ check (runes_of_ascii "options {
+    FixedStringPadChar = '0';
+}
+packet Q {
+    zchar[4] z,
+    @rightPad('\x00') char[3] n,
+    char[5] d,
+}
+root packet R {
+    Q,
+    zchar[8] top,
+    repeat zchar[2] zs,
+}
+")).
+Eval vm_compute in ("<<<M1608>>>" ++ check (runes_of_ascii "
+MetaData
+    repeatCount 	 // c
+  {char[
+
+    42  // " ++ [27880; 37322]%N ++ runes_of_ascii "
+  	] 
+
+// " ++ [128512]%N ++ runes_of_ascii " emoji
+    MetaDataX , 
+        // @lengthOf(
+zchar[ 
+        // " ++ [27880; 37322]%N ++ runes_of_ascii "
+	//x
+      0	]
+    asx ,
+
+} ")).
+Eval vm_compute in ("<<<M1575>>>" ++ check (runes_of_ascii "
+MetaData
+    leftPad
+
+    {
+    chars MetaDataX 
+, } 
+    // c
+packet
+repeatCount
+{
+    char[
+	255 ]
+uint8x 
+`" ++ [233]%N ++ runes_of_ascii "`  ,
+
+} MetaData
+pack{  As 
+Foo
+	,
+    }
+")).
+Eval vm_compute in ("<<<M466>>>" ++ check (runes_of_ascii "packet uint8x
 { match pack
     as msg_type	{
     0123456789 :	float
 }
 ,
 } packet //	t
-a1
+a1 a1
     { } options {packetx
-    = '\x00' '\x00'	; u128= ""a	b""  ; }
+    = '\x00'	; u128= ""a	b""  ; }
 ")).
-Eval vm_compute in ("<<<M1272>>>" ++ check (runes_of_ascii "
-options{
-LittleEndian=
-
-true; } packet
-	B	{
-u8 a
-
-    ,
-string  s, 
-}	root
-
-packet
-
-P
-
-{ u16
-    L
-    @lengthOf(
-
-    B
-)
-,
-B,
-    u8
-t ,  }")).
-Eval vm_compute in ("<<<M539>>>" ++ check (runes_of_ascii "packet uint8x
+Eval vm_compute in ("<<<M463>>>" ++ check (runes_of_ascii "packet uint8x
 { match pack
     as msg_type	{
     0123456789 :	float
 }
 ,
-} p" ++ [8232]%N ++ runes_of_ascii "acket //	t
+} float32 //	t
 a1
     { } options {packetx
     = '\x00'	; u128= ""a	b""  ; }
 ")).
-Eval vm_compute in ("<<<M492>>>" ++ check (runes_of_ascii "packet uint8x
+Eval vm_compute in ("<<<M472>>>" ++ check (runes_of_ascii "packet uint8x
 { match pack
     as msg_type	{
     0123456789 :	float
@@ -1154,236 +913,300 @@ Eval vm_compute in ("<<<M492>>>" ++ check (runes_of_ascii "packet uint8x
 ,
 } packet //	t
 a1
-    { } options {=
-    packetx '\x00'	; u128= ""a	b""  ; }
+    } { options {packetx
+    = '\x00'	; u128= ""a	b""  ; }
 ")).
-Eval vm_compute in ("<<<M1794>>>" ++ check (runes_of_ascii "packet A {
-    match k as n {
-        [
-            ""a"", ""bb"", ""c c"", ""d"", ""e"",
-            ""f"", ""g"", ""h"", ""i""
-        ] : B,
-        2 : C,
-    },
-}")).
-Eval vm_compute in ("<<<M665>>>" ++ check (runes_of_ascii "// @lengthOf(
+Eval vm_compute in ("<<<M676>>>" ++ check (runes_of_ascii "// @lengthOf(
 packet i8i8 { u128 o , }
 options { MetaDataX = true;
-    BodyLength =""packet"" x_y_z= 007
+    BodyLength =""packet"" x_y_z x_y_z= 007
 crc //x
-= ""abc"" ; ;
+= ""abc"" ;
     msg_type =
 i16 }")).
-Eval vm_compute in ("<<<M662>>>" ++ check (runes_of_ascii "// @lengthOf(
+Eval vm_compute in ("<<<M440>>>" ++ check (runes_of_ascii "packet uint8x
+{ match pack
+    as msg_type	{
+    0123456789 :	
+}
+,
+} packet //	t
+a1
+    { } options {packetx
+    = '\x00'	; u128= ""a	b""  ; }
+")).
+Eval vm_compute in ("<<<M529>>>" ++ check (runes_of_ascii "packet uint8x
+{ match pack
+    as msg_type	{
+    0123456789 :	float
+}
+,
+} packet //	t
+a1
+    { } options {packetx
+    = '\x00'	; u128= ""a	b""")).
+Eval vm_compute in ("<<<M1260>>>" ++ check (runes_of_ascii "
+
+  packet
+
+B
+    {
+
+u8
+	a
+
+,
+    }root
+packet
+P{ u8 K  , u8
+
+L @lengthOf(
+	Body )
+,  match
+
+K
+    as Body
+{
+
+    1  :  B
+	,  },
+    } ")).
+Eval vm_compute in ("<<<M649>>>" ++ check (runes_of_ascii "// @lengthOf(
 packet i8i8 { u128 o , }
-{ options MetaDataX = true;
+options {  = true;
     BodyLength =""packet"" x_y_z= 007
 crc //x
 = ""abc"" ;
     msg_type =
 i16 }")).
-Eval vm_compute in ("<<<M1705>>>" ++ check (runes_of_ascii "MetaData
-	leftPad
-    {chars MetaDataX 
-,} packet
-repeatCount {
-	char[255] 
-uint8x 	 // c
-  `" ++ [233]%N ++ runes_of_ascii "`
-    , }MetaData pack 
-{
+Eval vm_compute in ("<<<M1958>>>" ++ check (runes_of_ascii "
 
-    As	Foo ,
-}
-")).
-Eval vm_compute in ("<<<M1707>>>" ++ check (runes_of_ascii "packet A {
-    match k as n {
-        [
-            ""a"", ""bb"", ""c c"", ""d"", ""e"",
-            ""f""
-        ] : B,
-        2 : C,
-    },
-}")).
-Eval vm_compute in ("<<<M1417>>>" ++ check (runes_of_ascii "packet A {
-    match k as n {
-        [
-            1, 22, ""c c"", 4, 5,
-            ""f""
-        ] : B,
-        2 : C,
-    },
-}")).
-Eval vm_compute in ("<<<M680>>>" ++ check (runes_of_ascii "// @lengthOf(
-packet i8i8 { u128 o , }
-options { MetaDataX = true;
-    BodyLength =""packet"" x_y_z= 007
-crc //x
-= ""abc""")).
-Eval vm_compute in ("<<<M1167>>>" ++ check (runes_of_ascii "MetaData leftPad { chars MetaDataX , } packet repeatCount { char[ 255 ] // c
-uint8x `" ++ [233]%N ++ runes_of_ascii "` , } MetaData pack { As Foo , }")).
-Eval vm_compute in ("<<<M1663>>>" ++ check (runes_of_ascii "packet Foo {
-    tag roots,
-    // `tick` ""quote"" 'q'
-    i64_,
-    @calculatedFrom(""packet"")
-    uint32 MetaDataX,
-}")).
-Eval vm_compute in ("<<<M25>>>" ++ check (runes_of_ascii "packet stringy	{
-    } // packet A { u8 x, }
-packet
-    u128
-    { u16 len@lengthOf( u128)	,
-    //x
-    }
-")).
-Eval vm_compute in ("<<<M898>>>" ++ check (runes_of_ascii "packet A {
-  match k as n {
-    [""a"", 22, ""c c"", 4, ""e"", 66, ""g"", 8, ""i"", 10, ""k""] : B
-    2 : C
-  },
-}")).
-Eval vm_compute in ("<<<M634>>>" ++ check (runes_of_ascii "
-packet
-    asx {matc@lengthOfh u128 as lengthOf
+  packet A
 {
-//	t
-// `tick` ""quote"" 'q'
-255 : x ,
-    } ,	}")).
-Eval vm_compute in ("<<<M573>>>" ++ check (runes_of_ascii "
-packet
-    asx {match u128 u128 as lengthOf
-{
-//	t
-// `tick` ""quote"" 'q'
-255 : x ,
-    } ,	}")).
-Eval vm_compute in ("<<<M563>>>" ++ check (runes_of_ascii "
-packet
-    asx { {match u128 as lengthOf
-{
-//	t
-// `tick` ""quote"" 'q'
-255 : x ,
-    } ,	}")).
-Eval vm_compute in ("<<<M281>>>" ++ check (runes_of_ascii "
-packet
-    o	{  }
-packet
-Pad {
-BodyLength // trailing space 
-, } packet metadata //x
-{}")).
-Eval vm_compute in ("<<<M1882>>>" ++ check (runes_of_ascii "
+	u16
+len
 
-  packet A {match  k
-as
+    @lengthOf(
+	body) `a
+b`
 
-n
-{
-[
-
-    ""a"",
-22
-, ""c c"", 4
-, ""e"" ]
-	:B
-
-2 : C
-}
 ,
 
+u32
+	crc 
+@calculatedFrom(
+""CRC32"" 
+) 
+`a
+b`	,	string
+body
+    ,}
+")).
+Eval vm_compute in ("<<<M34>>>" ++ check (runes_of_ascii "options {
+Logon = 0 } options { msg_type = 3
+    MetaDataX =
+    // " ++ [128512]%N ++ runes_of_ascii " emoji
+    int8
+    uint8x=""""
+    ;
+    As = '0' }")).
+Eval vm_compute in ("<<<M1162>>>" ++ check (runes_of_ascii "MetaData leftPad { chars MetaDataX , } packet repeatCount {
+// c
+char[ 255 ] uint8x `" ++ [233]%N ++ runes_of_ascii "` , } MetaData pack { As Foo , }")).
+Eval vm_compute in ("<<<M938>>>" ++ check (runes_of_ascii "packet A {
+    Inner {
+        u8 x `a
+    b
+  c`,
+        Deep {
+            u8 y `a
+    b
+  c`,
+        },
+    },
+}")).
+Eval vm_compute in ("<<<M494>>>" ++ check (runes_of_ascii "packet uint8x
+{ match pack
+    as msg_type	{
+    0123456789 :	float
 }
+,
+} packet //	t
+a1
+    { } options {")).
+Eval vm_compute in ("<<<M1397>>>" ++ check (runes_of_ascii "MetaData 
+leftPad 
+{	/// triple
+  char[] body 
+, As options1  
+  //
+    /// triple
+
+,o
+//x
+
+i64_ ,
+	} ")).
+Eval vm_compute in ("<<<M1248>>>" ++ check (runes_of_ascii "  options
+{LittleEndian 
+= true 
+; }
+
+    root  packet
+
+P {
+
+    repeat
+char
+cs
+
+, u8
+	x, }
 
 ")).
-Eval vm_compute in ("<<<M567>>>" ++ check (runes_of_ascii "
+Eval vm_compute in ("<<<M568>>>" ++ check (runes_of_ascii "
 packet
-    asx { u128 as lengthOf
+    asx {match match u128 as lengthOf
 {
 //	t
 // `tick` ""quote"" 'q'
 255 : x ,
     } ,	}")).
-Eval vm_compute in ("<<<M1305>>>" ++ check (runes_of_ascii "packet orderItem {
+Eval vm_compute in ("<<<M1577>>>" ++ check (runes_of_ascii "  packet A {
+
+match
+    k
+as n { 
+[
+1
+
+    , 
+22 ,
+	007 ,4 ]:
+    B 2
+	:
+
+    C
+
+}
+	, }")).
+Eval vm_compute in ("<<<M637>>>" ++ check (runes_of_ascii "
+~packet
+    asx {match u128 as lengthOf
+{
+//	t
+// `tick` ""quote"" 'q'
+255 : x ,
+    } ,	}")).
+Eval vm_compute in ("<<<M575>>>" ++ check (runes_of_ascii "
+packet
+    asx {match u64 as lengthOf
+{
+//	t
+// `tick` ""quote"" 'q'
+255 : x ,
+    } ,	}")).
+Eval vm_compute in ("<<<M572>>>" ++ check (runes_of_ascii "
+packet
+    asx {match  as lengthOf
+{
+//	t
+// `tick` ""quote"" 'q'
+255 : x ,
+    } ,	}")).
+Eval vm_compute in ("<<<M1571>>>" ++ check (runes_of_ascii "packet
+
+A{
+
+    Inner
+{ 
+u8	x
+`
+x`
+
+    , Deep 
+{
+
+u8  y `
+x`	,	} 
+,} 
+,  }
+")).
+Eval vm_compute in ("<<<M1890>>>" ++ check (runes_of_ascii "packet Inner {
     u8 a,
 }
-root packet newOrder {
-    orderItem,
+
+root packet P {
+    repeat Inner items,
+    u8 x,
+}")).
+Eval vm_compute in ("<<<M1249>>>" ++ check (runes_of_ascii "packet Inner {
+    u8 a,
+}
+root packet P {
+    Inner ref_obj,
     u8 x,
 }
 ")).
-Eval vm_compute in ("<<<M817>>>" ++ check (runes_of_ascii "packet A {
-  match k as n {
-    [1, ""bb"", 007, ""d"", 5] : B,
-    2 : C
-  },
+Eval vm_compute in ("<<<M877>>>" ++ check (runes_of_ascii "packet A { Inner { match k as n { [1,22,007,4,5,66,7,8,9] : B, }, }, }")).
+Eval vm_compute in ("<<<M1687>>>" ++ check (runes_of_ascii "root packet P {
+    u8 s_u8,
+    repeat u8 r_u8,
+    u16 b_len,
 }")).
-Eval vm_compute in ("<<<M813>>>" ++ check (runes_of_ascii "packet A {
-  match k as n {
-    [1, 22, 007, 4, 5] : B,
-    2 : C
-  },
-}")).
-Eval vm_compute in ("<<<M791>>>" ++ check (runes_of_ascii "packet A {
-  match k as n {
-    [1, ""bb"", 007] : B,
-    2 : C
-  },
-}")).
-Eval vm_compute in ("<<<M534>>>" ++ check (runes_of_ascii "packet uint8x
-{ match pack
-    as msg_type	{
-    0123456789 :	")).
-Eval vm_compute in ("<<<M1287>>>" ++ check (runes_of_ascii "root packet P {
-    repeat string ss,
-    repeat u16 ns,
-}
+Eval vm_compute in ("<<<M1848>>>" ++ check (runes_of_ascii "
+options
+{ 
+a1
+
+=
+    ""packet""	// a // b
+; }	// @lengthOf(
 ")).
-Eval vm_compute in ("<<<M148>>>" ++ check (runes_of_ascii "options
-{
-    a1	=""packet""// a // b
-; } // @lengthOf(")).
-Eval vm_compute in ("<<<M1212>>>" ++ check (runes_of_ascii "packet body { i32 f32a `{ , }` ,
+Eval vm_compute in ("<<<M774>>>" ++ check (runes_of_ascii "packet A {
+  match k as n {
+    [1] : B
+    2 : C
+  },
+}")).
+Eval vm_compute in ("<<<M1202>>>" ++ check (runes_of_ascii "packet body
 // c
-} options { }")).
-Eval vm_compute in ("<<<M347>>>" ++ check (runes_of_ascii "packet As{
-/// triple
-// packet A { u8 x, }
-}
+{ i32 f32a `{ , }` , } options { }")).
+Eval vm_compute in ("<<<M1073>>>" ++ check (runes_of_ascii "packet A {} packet B {} MetaData M {} options {}")).
+Eval vm_compute in ("<<<M212>>>" ++ check (runes_of_ascii "packet
+    MetaDataX {i16 u128`" ++ [233]%N ++ runes_of_ascii "` , //x
+}")).
+Eval vm_compute in ("<<<M1096>>>" ++ check (runes_of_ascii "packet A { u8 x,// a
+
+
+// b
+
+ u8 y, }")).
+Eval vm_compute in ("<<<M1090>>>" ++ check (runes_of_ascii "packet A { @tag( // a
+ 1 ) u8 x, }")).
+Eval vm_compute in ("<<<M1535>>>" ++ check (runes_of_ascii "packet 
+A{
+
+    } 
+  // c" ++ [8232]%N ++ runes_of_ascii "
+ 
+")).
+Eval vm_compute in ("<<<M1797>>>" ++ check (runes_of_ascii "  MetaData  tag	// c
+  { }
 
 ")).
-Eval vm_compute in ("<<<M1773>>>" ++ check (runes_of_ascii "options {
-    a1 = ""packet"";
-}// @lengthOf(")).
-Eval vm_compute in ("<<<M1075>>>" ++ check (runes_of_ascii "MetaData M {
-}// c
-MetaData N {
-}// d")).
-Eval vm_compute in ("<<<M1774>>>" ++ check (runes_of_ascii "  packet Z9_	{	}
-
-packet
-Pad
-{  }")).
-Eval vm_compute in ("<<<M988>>>" ++ check (runes_of_ascii "packet A {
- u8 x `d" ++ [160]%N ++ runes_of_ascii "`, // c" ++ [160]%N ++ runes_of_ascii "
+Eval vm_compute in ("<<<M1866>>>" ++ check (runes_of_ascii "options  { } 	 // " ++ [128512]%N ++ runes_of_ascii " emoji")).
+Eval vm_compute in ("<<<M295>>>" ++ check (runes_of_ascii "root  packet
+u128 { }")).
+Eval vm_compute in ("<<<M1133>>>" ++ check (runes_of_ascii "MetaData u
+// c
+{ }")).
+Eval vm_compute in ("<<<M1027>>>" ++ check (runes_of_ascii "// c" ++ [8287]%N ++ runes_of_ascii "
+packet A {
 }")).
-Eval vm_compute in ("<<<M1486>>>" ++ check (runes_of_ascii "
-
-  packet A { }
-	    // c" ++ [5760]%N)).
-Eval vm_compute in ("<<<M268>>>" ++ check (runes_of_ascii " // packet A { u8 x, }")).
-Eval vm_compute in ("<<<M1706>>>" ++ check (runes_of_ascii "packet
-
-    A
-{ } ")).
-Eval vm_compute in ("<<<M744>>>" ++ check (runes_of_ascii "`" ++ [28040; 24687; 31867; 22411]%N ++ runes_of_ascii "` '0' options")).
-Eval vm_compute in ("<<<M1056>>>" ++ check (runes_of_ascii "packet A {
-}
-// c" ++ [6158]%N)).
-Eval vm_compute in ("<<<M1226>>>" ++ check (runes_of_ascii "packet // c
-x { }")).
-Eval vm_compute in ("<<<M99>>>" ++ check (runes_of_ascii "
- // " ++ [128512]%N ++ runes_of_ascii " emoji")).
-Eval vm_compute in ("<<<M980>>>" ++ check (runes_of_ascii "// c" ++ [12288]%N)).
-Eval vm_compute in ("<<<M745>>>" ++ check ([65533]%N ++ runes_of_ascii "1")).
+Eval vm_compute in ("<<<M1014>>>" ++ check (runes_of_ascii "packet A {
+}// c" ++ [8233]%N)).
+Eval vm_compute in ("<<<M1812>>>" ++ check (runes_of_ascii "packet f32a {
+}")).
+Eval vm_compute in ("<<<M1060>>>" ++ check (runes_of_ascii "// c x")).
+Eval vm_compute in ("<<<M86>>>" ++ check (runes_of_ascii "  ")).
